@@ -51,6 +51,11 @@ def canon(c):
     return tuple(sorted((k, repr(v.item() if hasattr(v, "item") else v)) for k, v in c.items()))
 
 
+def first_diff(ref, got):
+    k = next((i for i, (x, y) in enumerate(zip(ref, got)) if x != y), min(len(ref), len(got)))
+    return k, (ref[k] if k < len(ref) else None), (got[k] if k < len(got) else None)
+
+
 def roundtrip(state, pickled):
     if not pickled:
         return state
@@ -126,35 +131,69 @@ def run_rs_twin(ctx, case):
         with recs[1].patch():
             ev_b, _, tr_b, tid_b, sug_b = rs_play(b, enc, recs[1], hist, 0, [], case["restrict"] is not None)
         assert tr_a == tr_b, "twins differ before the snapshot"
-        clone, clone_exc = None, None
-        try:
-            with contextlib.redirect_stdout(io.StringIO()):
-                clone = b.clone_from_state(roundtrip(b.get_state(), case["pickle_state"]))
-        except AssertionError:
-            clone_exc = "AssertionError"
+        restrict_on = case["restrict"] is not None
+        interleaved = case.get("order") == "interleaved"
+        half = len(cont) // 2
+
+        def observe(c):
+            """the clone restored the RNG *state* into its own RandomState object; observe its draws"""
+            rec_c = h.Recorder()
+            crs = h.RecRandomState(0)
+            crs.set_state(c.random_state.get_state())
+            crs.rec = rec_c
+            c.set_random_state(crs)
+            return rec_c
+
+        def make_clone(st):
+            try:
+                with contextlib.redirect_stdout(io.StringIO()):
+                    return b.clone_from_state(st), None
+            except AssertionError:
+                return None, "AssertionError"
+        # ONE snapshot dict; the first clone gets it directly or through dill, every later consumer gets the dict itself
+        state = b.get_state()
+        clone, clone_exc = make_clone(roundtrip(state, case["pickle_state"]))
+        clone2 = None
+        if interleaved and clone is not None:
+            clone2, _ = make_clone(state)
         with recs[0].patch():
-            _, _, tr_orig, _, _ = rs_play(a, enc, recs[0], cont, tid_a, sug_a, case["restrict"] is not None)
+            _, _, tr_orig, _, _ = rs_play(a, enc, recs[0], cont, tid_a, sug_a, restrict_on)
         sig = dict(searcher="RandomSearcher", facility="clone_from_state", debug_log=case["debug"],
-                   restrict_configurations=case["restrict"] is not None, allow_duplicates=case["allow_dup"])
+                   restrict_configurations=restrict_on, allow_duplicates=case["allow_dup"],
+                   order="interleaved" if interleaved else "sequential")
+
+        def compare(tr, who):
+            if tr != tr_orig[:len(tr)] or (who != "original_first_half" and len(tr) != len(tr_orig)):
+                k, x, y = first_diff(tr_orig, tr)
+                ev = "continuation_raised_" + y[1] if (y is not None and y[0] == "raised") else "continuation_diverged"
+                results.append((cut, dict(sig, event=ev, consumer=who, state_pickled=bool(case["pickle_state"] and who == "clone")),
+                                "after snapshot at %d (%s): uninterrupted %s, %s %s" % (cut, who, x, who, y)))
+        tr_b1, tid_b1, sug_b1 = [], tid_b, sug_b
+        if interleaved:          # the snapshot source goes on before the clone runs
+            with recs[1].patch():
+                _, _, tr_b1, tid_b1, sug_b1 = rs_play(b, enc, recs[1], cont[:half], tid_b, sug_b, restrict_on)
+            compare(tr_b1, "original_first_half")
         if clone is None:
             obs_t = "None"
             results.append((cut, dict(sig, event="clone_raised_" + clone_exc), "clone_from_state raised " + clone_exc))
         else:
-            rec_c = h.Recorder()
-            # the clone restored the RNG *state* into its own RandomState object; observe its draws
-            crs = h.RecRandomState(0)
-            crs.set_state(clone.random_state.get_state())
-            crs.rec = rec_c
-            clone.set_random_state(crs)
+            rec_c = observe(clone)
             with rec_c.patch():
-                ev_c, obs_c, tr_clone, _, _ = rs_play(clone, enc, rec_c, cont, tid_b, sug_b, case["restrict"] is not None)
+                ev_c, obs_c, tr_clone, _, _ = rs_play(clone, enc, rec_c, cont, tid_b, sug_b, restrict_on)
             obs_t = "(Some %s)" % lst(obs_c)
-            if tr_clone != tr_orig:
-                k = next(i for i, (x, y) in enumerate(zip(tr_orig, tr_clone)) if x != y)
-                ev = "continuation_raised_" + tr_clone[k][1] if tr_clone[k][0] == "raised" else "continuation_diverged"
-                results.append((cut, dict(sig, event=ev),
-                                "after snapshot at %d: original %s, clone %s" % (cut, tr_orig[k], tr_clone[k])))
+            compare(tr_clone, "clone")
             cont_terms = ev_c
+            if clone2 is None:       # second restore from the SAME dict after the first clone ran
+                clone2, _ = make_clone(state)
+        # the snapshot source continues alongside
+        with recs[1].patch():
+            _, _, tr_b2, _, _ = rs_play(b, enc, recs[1], cont[half:] if interleaved else cont, tid_b1, sug_b1, restrict_on)
+        compare(tr_b1 + tr_b2, "original")
+        if clone2 is not None:
+            rec_c2 = observe(clone2)
+            with rec_c2.patch():
+                _, _, tr_clone2, _, _ = rs_play(clone2, enc, rec_c2, cont, tid_b, sug_b, restrict_on)
+            compare(tr_clone2, "second_clone")
         if clone is None:
             cont_terms = []
         term = "(%s, %s, %s, %s, %s, %s, %s, %s)" % (
@@ -162,7 +201,8 @@ def run_rs_twin(ctx, case):
             optlit(case["restrict"], lambda r: lst([enc(c) for c in r])),
             optlit(size if (size is not None and size < 4000) else None, natlit),
             lst(ev_b), lst(cont_terms), obs_t)
-        results.append((cut, None, term))
+        # model comparison only where the first clone ran before any other consumer of the snapshot
+        results.append((cut, None, term if not interleaved else None))
     return results
 
 
@@ -170,7 +210,8 @@ def gen_rs_twin(rng):
     case = h.gen_rs_case(rng)
     n = len(case["ops"])
     cuts = sorted(set([0, n] + [rng.randint(0, n) for _ in range(3)]))
-    case.update(kind="rs_twin", cuts=cuts, pickle_state=rng.random() < 0.5)
+    case.update(kind="rs_twin", cuts=cuts, pickle_state=rng.random() < 0.4,
+                order=rng.choice(["sequential", "interleaved"]))
     return case
 
 
@@ -206,18 +247,34 @@ def run_gs_twin(ctx, case):
         a = GridSearcher(space, **{k: (dict(v) if isinstance(v, dict) else v) for k, v in kw.items()})
         b = GridSearcher(space, **{k: (dict(v) if isinstance(v, dict) else v) for k, v in kw.items()})
         assert [canon(c) for c in play(a, hist, 0)] == [canon(c) for c in play(b, hist, 0)]
-        clone = b.clone_from_state(roundtrip(b.get_state(), case["pickle_state"]))
+        interleaved = case.get("order") == "interleaved"
+        half = len(cont) // 2
+        # ONE snapshot dict; the first clone gets it directly or through dill, every later consumer the dict itself
+        state = b.get_state()
+        clone = b.clone_from_state(roundtrip(state, case["pickle_state"]))
+        clone2 = b.clone_from_state(state) if interleaved else None
         o_orig = play(a, cont, cut)
+        o_b1 = play(b, cont[:half], cut) if interleaved else []      # the snapshot source goes on first
         o_clone = play(clone, cont, cut)
+        if clone2 is None:
+            clone2 = b.clone_from_state(state)                      # second restore after the first clone ran
+        o_b = o_b1 + play(b, cont[half:] if interleaved else cont, cut + (half if interleaved else 0))
+        o_clone2 = play(clone2, cont, cut)
         grid_o = [dict(zip(a.hp_keys, v)) for v in a.hp_values_combinations]
         grid_c = [dict(zip(clone.hp_keys, v)) for v in clone.hp_values_combinations]
         same_grid = [canon(c) for c in grid_o] == [canon(c) for c in grid_c]
-        if [canon(c) for c in o_orig] != [canon(c) for c in o_clone]:
-            k = next(i for i, (x, y) in enumerate(zip(o_orig, o_clone)) if canon(x) != canon(y))
-            results.append((cut, dict(searcher="GridSearcher", facility="clone_from_state", event="continuation_diverged",
-                                      shuffled_with_non_default_seed=bool(case["shuffle"] and case["seeded"] and not same_grid),
-                                      allow_duplicates=case["allow_dup"]),
-                            "after snapshot at %d: original %s, clone %s" % (cut, o_orig[k], o_clone[k])))
+        ref = [canon(c) for c in o_orig]
+        for who, out in (("clone", o_clone), ("original", o_b), ("second_clone", o_clone2)):
+            got = [canon(c) for c in out]
+            if got != ref:
+                k, x, y = first_diff(ref, got)
+                results.append((cut, dict(searcher="GridSearcher", facility="clone_from_state", event="continuation_diverged",
+                                          consumer=who, state_pickled=bool(case["pickle_state"] and who == "clone"),
+                                          order="interleaved" if interleaved else "sequential",
+                                          shuffled_with_non_default_seed=bool(
+                                              who != "original" and case["shuffle"] and case["seeded"] and not same_grid),
+                                          allow_duplicates=case["allow_dup"]),
+                                "after snapshot at %d (%s): uninterrupted %s, %s %s" % (cut, who, x, who, y)))
         term = "(%s, %s, %s, %s, %s, %s, %s)" % (
             lst([enc(c) for c in imputed]), lst([enc(c) for c in grid_o]), lst([enc(c) for c in grid_c]),
             blit(case["allow_dup"]), lst([blit(g) for g in hist]), lst([blit(g) for g in cont]),
@@ -229,7 +286,8 @@ def run_gs_twin(ctx, case):
 def gen_gs_twin(rng):
     case = h.gen_gs_case(rng)
     n = len(case["ops"])
-    case.update(kind="gs_twin", seeded=rng.random() < 0.6, pickle_state=rng.random() < 0.5,
+    case.update(kind="gs_twin", seeded=rng.random() < 0.6, pickle_state=rng.random() < 0.4,
+                order=rng.choice(["sequential", "interleaved"]),
                 cuts=sorted(set([0, n] + [rng.randint(0, n) for _ in range(3)])))
     return case
 
@@ -246,7 +304,7 @@ def gen_gp_twin(rng, nearly_exhausted=False):
         k = n - rng.randint(2, 6)
         return dict(kind="gp_twin", sched="fifo-bayesopt", spec=spec, pts=[], seed=rng.randrange(10 ** 6),
                     num_init_random=10 ** 6, ops=["suggest", "complete"] * (k + 6), cut=2 * k, max_suggest=k + 6,
-                    metrics=[0.5], pickle_state=False, directed="nearly_exhausted_finite_space")
+                    metrics=[0.5], pickle_state=False, directed="nearly_exhausted_finite_space", order="sequential")
     kind = rng.choice(["fifo-bayesopt", "hb-stopping-bayesopt", "hb-promotion-bayesopt"])
     spec = h.gen_space_spec(rng, finite_only=False, nmax=3)
     space = h.build_space(spec)
@@ -254,7 +312,8 @@ def gen_gp_twin(rng, nearly_exhausted=False):
     ops = [rng.choice(["suggest", "suggest", "report", "report", "complete", "error"]) for _ in range(2 * n)]
     return dict(kind="gp_twin", sched=kind, spec=spec, pts=h.gen_points(rng, spec, space), seed=rng.randrange(10 ** 6),
                 num_init_random=rng.choice([1, 2, 3, 50]), ops=ops, cut=rng.randint(0, len(ops)), max_suggest=n,
-                metrics=[round(rng.uniform(0, 1), 3) for _ in range(4 * n)], pickle_state=rng.random() < 0.5)
+                metrics=[round(rng.uniform(0, 1), 3) for _ in range(4 * n)], pickle_state=rng.random() < 0.4,
+                order=rng.choice(["sequential", "interleaved"]))
 
 
 class Player:
@@ -332,39 +391,60 @@ def make_gp_scheduler(case, space):
 
 
 def run_gp_twin(ctx, case):
+    """returns (list of (signature, text), number of continuation steps). pa = never interrupted; the searcher of
+    pb is replaced by a clone, the searcher of pc by a SECOND clone restored from the same snapshot dict
+    (clone_from_state invalidates the searcher it is called on, so the original cannot continue)"""
     h.quiet()
     space = h.build_space(case["spec"])
     with contextlib.redirect_stdout(io.StringIO()):
-        pa, pb = Player(make_gp_scheduler(case, space), case), Player(make_gp_scheduler(case, space), case)
+        pa, pb, pc = (Player(make_gp_scheduler(case, space), case) for _ in range(3))
     cut = case["cut"]
     for op in case["ops"][:cut]:
-        pa.step(op)
-        pb.step(op)
-    assert pa.trace == pb.trace, "twins differ before the snapshot"
+        for p in (pa, pb, pc):
+            p.step(op)
+    assert pa.trace == pb.trace == pc.trace, "twins differ before the snapshot"
     name = type(pb.sch.searcher).__name__
+    interleaved = case.get("order") == "interleaved"
     with contextlib.redirect_stdout(io.StringIO()):
         if cut == 0 or pa.n_sug == 0:
             # 'before the first suggestion': the searcher API requires configure_scheduler before use
-            pa.sch.searcher.configure_scheduler(pa.sch)
-            pb.sch.searcher.configure_scheduler(pb.sch)
-        clone = pb.sch.searcher.clone_from_state(roundtrip(pb.sch.searcher.get_state(), case["pickle_state"]))
-    # the only way to hand the clone to the scheduler (no public setter exists)
-    pb.sch._searcher = clone
-    with contextlib.redirect_stdout(io.StringIO()):
-        clone.configure_scheduler(pb.sch)     # 'has to be called before the searcher can be used'
+            for p in (pa, pb, pc):
+                p.sch.searcher.configure_scheduler(p.sch)
+        state = pb.sch.searcher.get_state()       # ONE snapshot dict
+
+    def install(p, st):
+        with contextlib.redirect_stdout(io.StringIO()):
+            clone = p.sch.searcher.clone_from_state(st)
+            p.sch._searcher = clone           # the only way to hand the clone to the scheduler (no public setter)
+            clone.configure_scheduler(p.sch)  # 'has to be called before the searcher can be used'
+    install(pb, roundtrip(state, case["pickle_state"]))
     n0 = len(pa.trace)
-    for op in case["ops"][cut:]:
+    rest = case["ops"][cut:]
+    for op in rest:
         pa.step(op)
-        pb.step(op)
-    if pa.trace != pb.trace:
-        k = next((i for i, (x, y) in enumerate(zip(pa.trace, pb.trace)) if x != y), min(len(pa.trace), len(pb.trace)))
-        x = pa.trace[k] if k < len(pa.trace) else None
-        y = pb.trace[k] if k < len(pb.trace) else None
-        ev = "clone_answers_none_or_other_config_in_random_phase" if case.get("directed") else "continuation_diverged"
-        return (dict(searcher=name, facility="clone_from_state", event=ev,
-                     finite_space_nearly_exhausted=bool(case.get("directed"))),
-                "after snapshot at op %d: original %s, clone %s" % (cut, x, y)), len(pa.trace) - n0
-    return None, len(pa.trace) - n0
+    if interleaved:
+        install(pc, state)
+        for op in rest:
+            pb.step(op)
+            pc.step(op)
+    else:
+        for op in rest:
+            pb.step(op)
+        install(pc, state)                    # second restore from the SAME dict after the first clone ran
+        for op in rest:
+            pc.step(op)
+    viols = []
+    for who, p in (("clone", pb), ("second_clone", pc)):
+        if p.trace != pa.trace:
+            k, x, y = first_diff(pa.trace, p.trace)
+            ev = "clone_answers_none_or_other_config_in_random_phase" if case.get("directed") else "continuation_diverged"
+            viols.append((dict(searcher=name, facility="clone_from_state", event=ev, consumer=who,
+                               order="interleaved" if interleaved else "sequential",
+                               shares="encoded_tuning_job_state" if who == "second_clone" else "nothing",
+                               state_pickled=bool(case["pickle_state"] and who == "clone"),
+                               finite_space_nearly_exhausted=bool(case.get("directed"))),
+                          "after snapshot at op %d (%s): uninterrupted %s, %s %s" % (cut, who, x, who, y)))
+    return viols, len(pa.trace) - n0
 
 
 # --------------------------------------------------------------------------
@@ -451,6 +531,9 @@ def directed_cases():
              ops=["get"] * 6, cuts=[2], pickle_state=False),
         dict(kind="rs_twin", spec=rs_spec, pts=[], restrict=rc, allow_dup=False, debug=True, seed=1,
              ops=["get"] * 6, cuts=[2], pickle_state=False),
+        # F-C16-6: the restrict_configurations list of the snapshot is shared with the snapshot source
+        dict(kind="rs_twin", spec=rs_spec, pts=[], restrict=rc, allow_dup=False, debug=True, seed=1,
+             ops=["get"] * 12, cuts=[0], pickle_state=False, order="interleaved"),
     ]
 
 
@@ -458,7 +541,9 @@ def run(ctx, replay=None):
     rng = ctx.rng
     ctx.rule = ("cases: twin continuation — two identical real objects get the same history; one is snapshotted "
                 "(get_state/clone_from_state, optionally through dill; or dill of the whole scheduler) at generated "
-                "prefixes incl. 0 and the full length, with pending/failed trials; original and restored object "
+                "prefixes incl. 0 and the full length, with pending/failed trials; the snapshot dict is consumed by several "
+                "objects (first clone directly or through dill, the snapshot source itself continuing before/after the "
+                "clone, a second clone restored from the same dict before or after the first one ran); every consumer "
                 "then get the same continuation and their traces (suggestions, decisions, exceptions) must be "
                 "identical; searchers: random (debug_log, allow_duplicates, restrict_configurations), grid (seeded, "
                 "shuffled, allow_duplicates), GP single/multi-fidelity; schedulers via dill: FIFO random/grid/bayesopt, "
@@ -487,19 +572,19 @@ def run(ctx, replay=None):
                 else:
                     ctx.count((k, one), nontrivial=any((o == "get" or o is True) for o in case["ops"][cut:]))
                     ctx.h(k + "_snapshot_position", "start" if cut == 0 else ("end" if cut == len(case["ops"]) else "middle"))
-                    (rc_terms if k == "rs_twin" else gc_terms).append(payload)
-                    (rc_meta if k == "rs_twin" else gc_meta).append(one)
+                    if payload is not None:
+                        (rc_terms if k == "rs_twin" else gc_terms).append(payload)
+                        (rc_meta if k == "rs_twin" else gc_meta).append(one)
             if k == "rs_twin":
                 ctx.h("rs_twin_kind", "debug=%s restrict=%s dup=%s" % (case["debug"], case["restrict"] is not None, case["allow_dup"]))
             else:
                 ctx.h("gs_twin_kind", "seeded=%s shuffle=%s dup=%s" % (case["seeded"], case["shuffle"], case["allow_dup"]))
         elif k == "gp_twin":
-            viol, n_after = run_gp_twin(ctx, case)
+            viols, n_after = run_gp_twin(ctx, case)
             ctx.count(case, nontrivial=n_after > 0)
             ctx.h("gp_twin", case["sched"] + ("/" + case["directed"] if case.get("directed") else ""))
-            if viol:
-                ctx.violation("property", "%s clone_from_state: %s" % (viol[0]["searcher"], viol[1]), case=case,
-                              signature=viol[0])
+            for sig, text in viols:
+                ctx.violation("property", "%s clone_from_state: %s" % (sig["searcher"], text), case=case, signature=sig)
         elif k == "dill":
             for cut, sig, payload in run_dill_case(ctx, case):
                 one = dict(case, cuts=[cut])
